@@ -5,3 +5,4 @@ INVARIANT C09_ConvergesLikeDeepCopy
 INVARIANT C09_SameAsFresh
 INVARIANT C09_ConvergesLikeFresh
 INVARIANT C09_NaNMask
+INVARIANT C09_ElementTablesSameAsFresh
